@@ -13,7 +13,8 @@ from . import c04
 PROPERTY = "C14"
 RULE = ("'size': exhaustive over token-count pairs n,m<=N x thresholds (1e-3 grid + critical "
         "values of the best attainable similarity) for JACCARD/COSINE/DICE and thresholds 0..N "
-        "for EDIT_DISTANCE, via filter_tables on one-row-per-count tables and filter_pair at the "
+        "for EDIT_DISTANCE, via filter_tables on one-row-per-count tables (also with left tables "
+        "holding only a few counts) and filter_pair at the "
         "window edges with two token contents; every (measure, threshold) batch is a case. "
         "'nocommon': generated tables and all x/y-only arrangements: Prefix/Position/Overlap "
         "never keep a token-disjoint pair. 'refine': Position.filter_tables is a subset of "
@@ -130,6 +131,31 @@ class SizeTight(Component):
                                              if ed else "the best attainable similarity %r is "
                                              "more than 1e-4 below the threshold"
                                              % (best(m, n, mm),)))
+            # sparse left tables: the probe must not fall back to the nearest indexed size
+            # when a right row's whole admissible window misses the sizes present on the left
+            lo_i = 0 if ed else 1
+            for rows in ([lo_i, lo_i + 1, lo_i + 2], [N - 2, N - 1, N], [N // 2], [lo_i, N]):
+                sub = T0.iloc[rows]
+                df = ctx.lib(f.filter_tables, sub, T1, "id", "id", "v", "v", show_progress=False)
+                if df is None:
+                    continue
+                got = set(zip(df["l_id"].tolist(), df["r_id"].tolist()))
+                for i in rows:
+                    for j in range(N + 1):
+                        n, mm = cnt(i), cnt(j)
+                        if n == 0 or mm == 0:
+                            continue
+                        v = verdict(n, mm)
+                        if v == "keep" and (i, j) not in got:
+                            ctx.violation("filter=SizeFilter,kind=drops-reachable-counts",
+                                          "%s.filter_tables (left table holding only the counts "
+                                          "%r) drops counts (%d, %d)"
+                                          % (who, [cnt(x) for x in rows], n, mm))
+                        if v == "drop" and (i, j) in got:
+                            ctx.violation("filter=SizeFilter,kind=keeps-unreachable-counts",
+                                          "%s.filter_tables (left table holding only the counts "
+                                          "%r) keeps counts (%d, %d), which cannot reach the "
+                                          "threshold" % (who, [cnt(x) for x in rows], n, mm))
             # filter_pair at the window edges, two contents per count pair
             for i in range(N + 1):
                 n = cnt(i)
